@@ -20,6 +20,32 @@ def base_ref(e):
     return e
 
 
+STD_WRITERS = {'std::fill': 0, 'std::fill_n': 0, 'std::iota': 0, 'std::generate': 0, 'std::copy': 2, 'std::transform': 2, 'std::copy_n': 2}
+
+
+def iter_dest(a):
+    """X.begin() [+ offset ...]  ->  (Ref node of X, [offset expressions]); (None, []) otherwise."""
+    offs = []
+    t = strip_casts(a)
+    while True:
+        while t.get('k') in ('Construct',) and len([x for x in t.get('args', []) if x.get('k') != 'DefaultArg']) == 1:
+            t = strip_casts(t['args'][0])
+        if t.get('k') == 'Call' and t.get('kind') == 'op' and t.get('op') in ('+', '-') and len(t.get('args', [])) == 2:
+            offs.append(t['args'][1])
+            t = strip_casts(t['args'][0])
+            continue
+        break
+    if t.get('k') == 'Call' and t.get('kind') == 'method' and (t.get('callee') or {}).get('name') == 'begin':
+        b = strip_casts(t['obj'])
+        idxs = []
+        while b.get('k') == 'Index':
+            idxs.append(b['idx'])
+            b = strip_casts(b['base'])
+        if b.get('k') == 'Ref':
+            return b, offs + idxs
+    return None, []
+
+
 class DefAssign:
     """Forward definite-assignment analysis over the statement tree for a set of tracked variable ids.
 
@@ -70,6 +96,23 @@ class DefAssign:
             A1 = self.expr(e['a'], set(A))
             A2 = self.expr(e['b'], set(A))
             return A1 & A2
+        if k == 'Call' and (e.get('callee') or {}).get('q') in STD_WRITERS and len(e.get('args', [])) > STD_WRITERS[(e.get('callee') or {}).get('q')]:
+            # a standard algorithm writing a whole prefix of a container through an output iterator: a write of that
+            # container (array granularity, like an element store in a counted loop), not a read of it
+            di = STD_WRITERS[e['callee']['q']]
+            ref0, _ = iter_dest(e['args'][di])
+            dest = ref0['id'] if ref0 is not None and ref0.get('id') in self.tracked else None
+            for i, a in enumerate(e['args']):
+                ref, offs = iter_dest(a)
+                if dest is not None and ref is not None and ref.get('id') == dest and (i == di or e['callee']['q'] in ('std::fill', 'std::iota', 'std::generate')):
+                    # iterators delimiting the written range: only their offsets are read
+                    for o_ in offs:
+                        A = self.expr(o_, A)
+                    continue
+                A = self.expr(a, A)
+            if dest is not None:
+                A = A | {dest}
+            return A
         if k == 'Call':
             cc = e.get('callee') or {}
             mut = set(cc.get('mutrefs', []))
